@@ -374,6 +374,14 @@ def observe(case):
             if case.get("lived") is not None and case["key"][0] in ("maskv", "idxv") and len(case["key"][1]) >= 2:
                 # the KEY vector has a past too: it was used as a key in another state and rewritten in place
                 key = V.lived_in(lambda xs: Vector(xs), list(case["key"][1]), case["lived"] + 7)
+            if isinstance(key, list):
+                # the program keeps its index list and used it before, on a LONGER vector: indexing reads its key, it does
+                # not rewrite it (negative positions count from the end of the vector being indexed, every time)
+                try:
+                    xs = [V.dec(x) for x in case["vals"]]
+                    Vector(xs + xs[:1] * 2 + xs)[key]
+                except Exception:                            # noqa: BLE001
+                    pass
             return {"r": _vres(lambda: v[key]), "dt0": V.schema_obs(v.schema())}
         if op == "tab":
             if case.get("via_rename"):
